@@ -292,6 +292,10 @@ func c03UPCEANJob(s *odUPCEAN, payload string, withCheck bool, multi bool) *c03J
 		job.reads = append(job.reads, c03Read{label: "multi+formats", rname: "multi/" + s.name, mk: func() gozxing.Reader {
 			return oned.NewMultiFormatUPCEANReader(map[gozxing.DecodeHintType]interface{}{gozxing.DecodeHintType_POSSIBLE_FORMATS: []gozxing.BarcodeFormat{f}})
 		}, hints: pf, want: full, format: s.format})
+		// the reader is configured at construction: the same instance called without decode hints
+		job.reads = append(job.reads, c03Read{label: "multi+formats-at-construction-only", rname: "multi/" + s.name + "/nil-decode-hints", mk: func() gozxing.Reader {
+			return oned.NewMultiFormatUPCEANReader(map[gozxing.DecodeHintType]interface{}{gozxing.DecodeHintType_POSSIBLE_FORMATS: []gozxing.BarcodeFormat{f}})
+		}, hints: nil, want: full, format: s.format})
 		// several formats named, in an order derived from the content (the reader tries them in turn:
 		// a decoder that declines a symbol must not stop the others from being tried)
 		all := []gozxing.BarcodeFormat{gozxing.BarcodeFormat_UPC_A, gozxing.BarcodeFormat_EAN_13, gozxing.BarcodeFormat_EAN_8, gozxing.BarcodeFormat_UPC_E}
